@@ -34,7 +34,7 @@ package boltz
 //@ spec sameStr(s Str) Str = s
 //@ modelfield rowCursorImpl.currentRow symRow sameStr
 //@ func (*rowCursorImpl).NextRow
-//@   props C02
+//@   props C02 C01
 //@   modifies rs.currentRow, symRow[rs]
 //@   ensures symRow[rs] == str(id)
 //@   ensures rs.currentRow == id
@@ -52,16 +52,16 @@ package boltz
 //@ axiom nth_def: (forall ((seq (Array Int Str)) (f Int) (st Int) (i Int)) (! (=> (and (>= i 0) (matches seq f st i)) (= (nth seq f st (cnt seq f st i)) i)) :pattern ((matches seq f st i))))
 
 //@ func (*uniqueIndexScanner).IsValid
-//@   props C02 C14
+//@   props C02 C14 C01
 //@   pure
 //@   ensures result == (scanner.current != nil)
 //@ func (*uniqueIndexScanner).Current
-//@   props C02 C14
+//@   props C02 C14 C01
 //@   pure
 //@   ensures result == scanner.current
 
 //@ func (*uniqueIndexScanner).nextUnpaged
-//@   props C02 C15
+//@   props C02 C15 C01
 //@   requires scanner.cursor != nil && scanner.rowCursor != nil && scanner.filter != nil && scanner.store != nil
 //@   requires 0 <= curPos[scanner.cursor] && curPos[scanner.cursor] <= curLen[scanner.cursor]
 //@   modifies scanner.current, curPos[scanner.cursor], scanner.rowCursor.currentRow, symRow[scanner.rowCursor]
@@ -78,7 +78,7 @@ package boltz
 // page(S, m, off, lim): count is the number of matching elements; the result holds the
 // matching elements number off, off+1, ... (at most lim of them), in sequence order.
 //@ func (*uniqueIndexScanner).ScanCursor
-//@   props C02 C15
+//@   props C02 C15 C01
 //@   requires query != nil && scanner.store != nil
 //@   requires scanner.offset == 0 && scanner.count == 0 && scanner.collected == 0
 //@   modifies scanner.*, qHasSkip[query], qSkip[query], qHasLimit[query], qLimit[query], curPos, symRow, any rowCursorImpl.currentRow
@@ -120,7 +120,7 @@ package boltz
 //@ view cmpSym[*datetimeSymbolComparator] = ref(self.symbol)
 //@ view cmpSym[*boolSymbolComparator] = ref(self.symbol)
 //@ func (*BaseStore).newRowComparator
-//@   props C02
+//@   props C02 C01
 //@   pure
 //@   ensures[one-comparator-per-field-then-id] result1 == nil ==> result0 != nil && istype(result0, *rowComparatorImpl) && len(as(result0, *rowComparatorImpl).symbols) == len(sort) + 1 && forall(j, 0 <= j && j < len(sort) ==> cmpFwd[as(result0, *rowComparatorImpl).symbols[j]] == sfAsc[sort[j]] && cmpSym[as(result0, *rowComparatorImpl).symbols[j]] == cowGet(store.symbols, sfSym[sort[j]])) && cmpFwd[as(result0, *rowComparatorImpl).symbols[len(sort)]] && cmpSym[as(result0, *rowComparatorImpl).symbols[len(sort)]] == cowGet(store.symbols, "id")
 //@   assume[sort-fields-not-nil] forall(j, 0 <= j && j < len(sort) ==> sort[j] != nil)
@@ -139,13 +139,13 @@ package boltz
 //@   pure
 //@ typeinv rowComparatorImpl: forall(i, 0 <= i && i < len(self.symbols) ==> self.symbols[i] != nil)
 //@ func (*rowComparatorImpl).Compare
-//@   props C02
+//@   props C02 C01
 //@   pure
 //@   ensures[first-difference-decides] (result == 0) == forall(j, 0 <= j && j < len(rc.symbols) ==> cmpRes(ref(rc.symbols[j]), ref(row1), ref(row2)) == 0)
 //@   ensures[first-difference-decides-value] result != 0 ==> exists(j, 0 <= j && j < len(rc.symbols) && result == cmpRes(ref(rc.symbols[j]), ref(row1), ref(row2)) && forall(i, 0 <= i && i < j ==> cmpRes(ref(rc.symbols[i]), ref(row1), ref(row2)) == 0))
 //@   invariant 1: forall(i, 0 <= i && i <= rangeindex ==> cmpRes(ref(rc.symbols[i]), ref(row1), ref(row2)) == 0) && (rangeindex >= 0 ==> result == 0) && (rangeindex < 0 ==> result == 0)
 //@ func (*sortingScanner).ScanCursor
-//@   props C02 C15
+//@   props C02 C15 C01
 //@   requires query != nil && scanner.store != nil
 //@   requires scanner.offset == 0 && scanner.count == 0
 //@   modifies *
@@ -157,7 +157,7 @@ package boltz
 //@   invariant 1: cursor != nil && ref(cursor) == provCursor(cursorProvider, true) && rowCursor != nil && scanner.store != nil && results != nil
 
 //@ func (*sortingScanner).ScanCursor$1
-//@   props C02
+//@   props C02 C01
 //@   requires *scanner != nil && istype(row, *Row) && ref(row) != 0
 //@   modifies (*scanner).offset, *fv(result)
 //@   ensures[skip] old((*scanner).offset) < (*scanner).targetOffset ==> (*scanner).offset == old((*scanner).offset) + 1 && *fv(result) == old(*fv(result))
@@ -490,7 +490,7 @@ package boltz
 // Next(): skips non-matching elements; matching elements are consumed by the offset until it reaches
 // targetOffset, the next one is produced; nothing is produced once targetLimit values have been.
 //@ func (*uniqueIndexScanner).Next
-//@   props C02 C14 C15
+//@   props C02 C14 C15 C01
 //@   requires scanner.cursor != nil && scanner.rowCursor != nil && scanner.filter != nil && scanner.store != nil
 //@   requires 0 <= curPos[scanner.cursor] && curPos[scanner.cursor] <= curLen[scanner.cursor]
 //@   requires 0 <= scanner.offset && scanner.offset <= max(scanner.targetOffset, 0) && 0 <= scanner.collected
@@ -559,14 +559,14 @@ package boltz
 //@ view curPos[*entitySetSymbolRuntime] = ite(self.cursor == nil, 0, bcPos[self.cursor])
 //@ view curDesc[*entitySetSymbolRuntime] = false
 //@ typeinv entitySetSymbolRuntime: (self.cursor == nil ==> self.value == nil) && (self.cursor != nil ==> 0 <= bcLen[self.cursor] && bcLen[self.cursor] < MaxInt64 && 0 <= bcPos[self.cursor] && bcPos[self.cursor] <= bcLen[self.cursor] && sortedKeys(bcKeys[self.cursor], bcLen[self.cursor]) && (self.value != nil) == (bcPos[self.cursor] < bcLen[self.cursor]) && (self.value != nil ==> str(self.value) == bcKeys[self.cursor][bcPos[self.cursor]] && len(self.value) > 0) && forall(i, 0 <= i && i < bcLen[self.cursor] ==> sel(bcKeys[self.cursor], i) == prepend(TypeString, untag(sel(bcKeys[self.cursor], i)))))
-//@ implcheck C14 ast.SeekableSetCursor *entitySetSymbolRuntime
+//@ implcheck C14,C01 ast.SeekableSetCursor *entitySetSymbolRuntime
 // assumed: the keys of an entity's set bucket are typed strings (they are written by SetStringList / SetListEntry only)
 //@ func (*entitySetSymbolImpl).openBoltCursor
 //@   pure
 //@   censures result != nil ==> fresh(result) && 0 <= bcLen[result] && bcLen[result] < MaxInt64 && sortedKeys(bcKeys[result], bcLen[result]) && forall(i, 0 <= i && i < bcLen[result] ==> sel(bcKeys[result], i) == prepend(TypeString, untag(sel(bcKeys[result], i))))
 // OpenCursor: repositions the (reused) runtime symbol at the start of the row's set; no bucket = empty set
 //@ func (*entitySetSymbolRuntime).OpenCursor
-//@   props C14
+//@   props C14 C01
 //@   modifies symbol.cursor, symbol.value
 //@   ensures[at-start] result != nil && istype(result, *entitySetSymbolRuntime) && as(result, *entitySetSymbolRuntime) == symbol && curPos[symbol] == 0
 
@@ -670,3 +670,15 @@ package boltz
 //@   nosafety
 //@   modifies *
 //@   ensures[null-tag-or-unknown-symbol] result == (rcSym(rs, name) == 0 || old(rcFT(rs, name)) == TypeNil)
+
+// Query entry points on a store that has never been written to: no entities bucket, no result, no panic (C10)
+//@ func (*sortingScanner).Scan
+//@   props C10
+//@   requires scanner.store != nil && query != nil
+//@   requires[a-scanner-is-used-once] scanner.offset == 0 && scanner.count == 0
+//@   modifies *
+//@ func (*uniqueIndexScanner).Scan
+//@   props C10
+//@   requires scanner.store != nil && query != nil
+//@   requires[a-scanner-is-used-once] scanner.offset == 0 && scanner.count == 0 && scanner.collected == 0
+//@   modifies *
